@@ -27,7 +27,11 @@ fn resolve(a: usize, ctx: &str) -> Option<Res> {
         // The VM map is only consulted where MMTk itself consults it: for addresses the SFT
         // attributes to a space.  (Map64's descriptor table has no entry for the last 2 TiB
         // slot below heap_end, which no space can occupy; indexing it would panic.)
-        let desc = if name != "empty" { mmtk::verif::descriptor_for_address(addr(a)) } else { 0 };
+        // Map32 (the discontiguous layout) makes `get_descriptor_for_address` total on purpose (a
+        // bounds-checked table lookup that yields the uninitialised descriptor), so there the VM
+        // map is consulted for every address.
+        let map32 = crate::world::world().cfg.layout == "map32";
+        let desc = if name != "empty" || map32 { mmtk::verif::descriptor_for_address(addr(a)) } else { 0 };
         let in_spaces = memory_manager::is_in_mmtk_spaces(ObjectReference::from_raw_address(addr(a)).unwrap());
         Res { name, desc, in_spaces }
     });
@@ -152,6 +156,9 @@ pub fn at_pause_end(sh: &Shadow, live: &HashSet<u64>) {
             t.outside += 1;
             if r.name != "empty" || r.in_spaces {
                 violation("C31", format!("outside-address-resolves-to-a-space:{}", ctx), format!("address {:#x} ({}) is outside the MMTk heap but the SFT says {:?}, is_in_mmtk_spaces = {}", a, ctx, r.name, r.in_spaces));
+            }
+            if r.desc != 0 && r.name == "empty" {
+                violation("C31", format!("vm-map-descriptor-for-address-outside-the-heap:{}", ctx), format!("address {:#x} ({}) is outside [heap_start, heap_end) and the SFT says empty, but the VM map's descriptor is {:#x}", a, ctx, r.desc));
             }
         }
         drop(boxed);
